@@ -73,6 +73,10 @@ func MonProgress(prop string, maxView int) *Mon {
 	// heights at which the primary of a view entered that view while processing a recovery
 	// message: by design (#74) it then waits a whole view timeout instead of proposing at once
 	recoveringPrimary := map[uint32]bool{}
+	// D20, the dBFT 2.0 liveness lock: a validator that has asked for a view change may still commit in the
+	// old view (when more than F others look committed or lost); the rest may then move on with its request.
+	askedCV := map[int]map[hv]bool{}
+	commitAfterCV := map[uint32]bool{}
 	return &Mon{Name: prop + "-progress",
 		AfterCall: func(n *Node, c *Call) {
 			if c.Kind == CReceive && c.P.T == dbft.RecoveryMessageType && n.D.BlockIndex == c.PreHeight && n.D.ViewNumber > c.PreView && n.D.IsPrimary() && !n.D.RequestSentOrReceived() {
@@ -81,6 +85,18 @@ func MonProgress(prop string, maxView int) *Mon {
 			}
 		},
 		Broadcast: func(n *Node, p Payload) {
+			switch p.T {
+			case dbft.ChangeViewType:
+				if askedCV[n.ID] == nil {
+					askedCV[n.ID] = map[hv]bool{}
+				}
+				askedCV[n.ID][hv{p.Ht, p.V}] = true
+			case dbft.CommitType, dbft.PreCommitType:
+				if askedCV[n.ID][hv{p.Ht, p.V}] && !commitAfterCV[p.Ht] {
+					commitAfterCV[p.Ht] = true
+					n.W.Stat("commit_after_changeview")
+				}
+			}
 			if p.T != dbft.PrepareRequestType {
 				return
 			}
@@ -124,6 +140,8 @@ func MonProgress(prop string, maxView int) *Mon {
 			key := "stalled"
 			if reproposed {
 				key = "D11-restarted-primary-reproposed"
+			} else if h, ok := commitLockedBelow(w); ok && commitAfterCV[h] {
+				key = "D20-commit-after-changeview-lock"
 			}
 			st := ""
 			for _, n := range w.Nodes {
@@ -139,6 +157,42 @@ func MonProgress(prop string, maxView int) *Mon {
 			w.Fail(prop, fmt.Sprintf("no progress: run stopped (%s) at t=%s (last fault at %s) before every live node reached height %d;%s", t.HitLimit, w.Clock.Sub(w.Cfg.Epoch), t.LastFault, w.Cfg.StartTip+uint32(t.O.Heights), st), key)
 		},
 	}
+}
+
+// commitLockedBelow reports the dBFT 2.0 lock state at the lowest undecided height of the live validators:
+// some of them have sent their commit (or pre-commit) in a view the others have already left, and neither
+// the locked ones nor the ones that moved on are M.
+func commitLockedBelow(w *World) (uint32, bool) {
+	var h uint32
+	var at []*Node
+	for _, n := range w.Nodes {
+		if n == nil || n.Crashed || n.Silent || n.D == nil || !n.Active() || n.D.BlockSent() {
+			continue
+		}
+		if len(at) == 0 || n.D.BlockIndex < h {
+			h, at = n.D.BlockIndex, at[:0]
+		}
+		if n.D.BlockIndex == h {
+			at = append(at, n)
+		}
+	}
+	if len(at) == 0 {
+		return 0, false
+	}
+	top := byte(0)
+	for _, n := range at {
+		top = max(top, n.D.ViewNumber)
+	}
+	locked, moved := 0, 0
+	for _, n := range at {
+		if n.D.ViewNumber < top && (n.D.CommitSent() || n.D.PreCommitSent()) {
+			locked++
+		} else if n.D.ViewNumber == top {
+			moved++
+		}
+	}
+	m := at[0].D.M()
+	return h, locked > 0 && locked < m && moved < m
 }
 
 // ---- C16 dynamic block time ---------------------------------------------------------------
